@@ -235,7 +235,7 @@ CLAIMED = {
             "pointer and _commit_file_ops commits the snapshot after every manifest and the manifest list were written.",
             "Trusted: T-os page-cache/durable reading of write/fsync/replace, A-write, a swallowed directory-fsync OSError = "
             "'unsupported', T-arrow (ParquetWriter.close finishes the file), S3 durability = T-s3; durability of caller-provided files "
-            "(append_files) is outside the library. The step from the proved call ordering to "a power loss never leaves a final name pointing at incomplete content, and a durable pointer names a durable complete metadata file" is lemma POWER-LOSS, discharged as SMT obligations over a two-level (page cache / disk) model of names and contents, with a sanity obligation that rename-before-fsync breaks it.",
+            "(append_files) is outside the library. The step from the proved call ordering to 'a power loss never leaves a final name pointing at incomplete content, and a durable pointer names a durable complete metadata file' is lemma POWER-LOSS, discharged as SMT obligations over a two-level (page cache / disk) model of names and contents, with a sanity obligation that rename-before-fsync breaks it.",
             "DESIGN.md 4/C16"),
 }
 
